@@ -6,3 +6,4 @@ open GoMail.Props.C13
 #print axioms sends_never_interleave
 #print axioms send_path_stays_on_its_connection
 #print axioms send_path_inventory
+#print axioms every_path_gives_back_the_locks_it_took
